@@ -5,9 +5,14 @@ For every generated hypergraph:
  (ii) metamorphic check on the implementation itself: two re-insertions under the identity labelling and
       three relabellings (other integers with gaps; a non-identity permutation of 0..k-1 / 0..m-1; strings)
       x two insertion orders; every structural quantity of the statement must be unchanged except by the
-      same renaming.  A difference is a concrete violation (site = function name, failure_class =
+      same renaming.  The networks carry an edge attribute "weight" (absent on some edges) and a node attribute
+      "mass", carried along by the relabelling, and the weighted / attribute-reading variants are among the
+      quantities (degree(weight=), incidence_matrix(weight=), normalized Laplacian weighted=True, attrs,
+      filterby_attr, line-graph weights).  A difference is a concrete violation (site = function name, failure_class =
       "not-order-invariant" for the identity labelling, "not-relabel-invariant" otherwise; replay = the two
       networks, shrunk).
+ (iii) a quantity that raises on EVERY generated original is not exercised at all: it is listed in the evidence
+      (`always_raises`) and reported as unproven (exit 1, no-failing-input-found), never counted as invariant.
 """
 import copy
 import glob
@@ -48,6 +53,31 @@ def gen_case(rng, i):
     return nodes, edges
 
 
+WEIGHTS = [1, 2, 3, 0.5, 2.5]
+MASSES = [1, 2, 5]
+
+
+def gen_attrs(rng, nodes, edges):
+    """edge attribute "weight" on ~75 % of the edges (the rest default to 1 in every weighted measure), node attribute
+    "mass" on ~75 % of the nodes; with probability 0.15 no attributes at all"""
+    if rng.random() < 0.15:
+        return [], []
+    nattr = [[enc_id(n), {"mass": rng.choice(MASSES)}] for n in nodes if rng.random() < 0.75]
+    eattr = [[enc_id(e), {"weight": rng.choice(WEIGHTS)}] for e, _ in edges if rng.random() < 0.75]
+    return nattr, eattr
+
+
+def mk_case(rng, i):
+    nodes, edges = gen_case(rng, i)
+    nattr, eattr = gen_attrs(rng, nodes, edges)
+    return {"nodes": [enc_id(n) for n in nodes], "edges": [[enc_id(e), [enc_id(x) for x in ms]] for e, ms in edges],
+            "nattr": nattr, "eattr": eattr}
+
+
+def _attrs(case):
+    return ({json.dumps(n): a for n, a in case.get("nattr", [])}, {json.dumps(e): a for e, a in case.get("eattr", [])})
+
+
 def _nonid_perm(rng, k):
     p = list(range(k))
     if k >= 2:
@@ -75,8 +105,9 @@ def make_variant(rng, nodes, edges, relabel, nodes_first):
         pi = {n: pp[i] for i, n in enumerate(norder)}
         sigma = {e: pe[i] for i, (e, _) in enumerate(eorder)}
     elif relabel == "str":
-        names = rng.sample(["n%d" % i for i in range(k + 3)] + list("pqrstuvw"), k)
-        enames = rng.sample(["e%d" % i for i in range(m + 3)] + list("ABCDEFG"), m)
+        # multi-digit suffixes so that string order ("n10" < "n2") differs from numeric order
+        names = rng.sample(["n%d" % i for i in (1, 2, 3, 10, 11, 20, 21, 100, 101, 200)] + list("pqrstuvw"), k)
+        enames = rng.sample(["e%d" % i for i in (1, 2, 3, 10, 11, 20, 21, 100, 101, 200)] + list("ABCDEFG"), m)
         pi = dict(zip(nodes, names))
         sigma = dict(zip([e for e, _ in edges], enames))
     else:
@@ -87,32 +118,50 @@ def make_variant(rng, nodes, edges, relabel, nodes_first):
 
 
 def build_orig(case):
+    na, ea = _attrs(case)
     H = xgi.Hypergraph()
-    H.add_nodes_from([dec_id(n) for n in case["nodes"]])
+    for n in case["nodes"]:
+        H.add_node(dec_id(n), **na.get(json.dumps(n), {}))
     for e, ms in case["edges"]:
-        H.add_edge([dec_id(x) for x in ms], idx=dec_id(e))
+        H.add_edge([dec_id(x) for x in ms], idx=dec_id(e), **ea.get(json.dumps(e), {}))
     return H
 
 
-def build_variant(var):
+def build_variant(var, case=None):
+    """the relabelled / re-inserted network; attributes of `case` travel with their node / edge.  With nodes_first the
+    attributes are given at insertion, otherwise nodes are created by the edges and all attributes are attached
+    afterwards with set_node_attributes / set_edge_attributes (a second way of arriving at the same network)"""
     pi = {dec_id(a): dec_id(b) for a, b in var["pi"]}
     sigma = {dec_id(a): dec_id(b) for a, b in var["sigma"]}
+    na, ea = _attrs(case or {})
     H = xgi.Hypergraph()
     if var["nodes_first"]:
+        for n in var["nodes"]:
+            H.add_node(pi[dec_id(n)], **na.get(json.dumps(n), {}))
+        for e, ms in var["edges"]:
+            H.add_edge([pi[dec_id(x)] for x in ms], idx=sigma[dec_id(e)], **ea.get(json.dumps(e), {}))
+    else:
+        for e, ms in var["edges"]:
+            H.add_edge([pi[dec_id(x)] for x in ms], idx=sigma[dec_id(e)])
         H.add_nodes_from([pi[dec_id(n)] for n in var["nodes"]])
-    for e, ms in var["edges"]:
-        H.add_edge([pi[dec_id(x)] for x in ms], idx=sigma[dec_id(e)])
-    if not var["nodes_first"]:
-        H.add_nodes_from([pi[dec_id(n)] for n in var["nodes"]])
+        nv = {pi[dec_id(n)]: na[json.dumps(n)] for n in var["nodes"] if json.dumps(n) in na}
+        ev = {sigma[dec_id(e)]: ea[json.dumps(e)] for e, _ in var["edges"] if json.dumps(e) in ea}
+        if nv:
+            H.set_node_attributes(nv)
+        if ev:
+            H.set_edge_attributes(ev)
     return H, {v: k for k, v in pi.items()}, {v: k for k, v in sigma.items()}
 
 
-def variant_net(var):
+def variant_net(var, case=None):
     """the relabelled network as plain data (for the replay file)"""
     pi = {dec_id(a): dec_id(b) for a, b in var["pi"]}
     sigma = {dec_id(a): dec_id(b) for a, b in var["sigma"]}
+    na, ea = _attrs(case or {})
     return {"nodes_first": var["nodes_first"], "nodes": [enc_id(pi[dec_id(n)]) for n in var["nodes"]],
-            "edges": [[enc_id(sigma[dec_id(e)]), [enc_id(pi[dec_id(x)]) for x in ms]] for e, ms in var["edges"]]}
+            "edges": [[enc_id(sigma[dec_id(e)]), [enc_id(pi[dec_id(x)]) for x in ms]] for e, ms in var["edges"]],
+            "nattr": [[enc_id(pi[dec_id(n)]), na[json.dumps(n)]] for n in var["nodes"] if json.dumps(n) in na],
+            "eattr": [[enc_id(sigma[dec_id(e)]), ea[json.dumps(e)]] for e, _ in var["edges"] if json.dumps(e) in ea]}
 
 
 def differs(case, var, label):
@@ -121,7 +170,7 @@ def differs(case, var, label):
     H = build_orig(case)
     idn, ide = {n: n for n in H.nodes}, {e: e for e in H.edges}
     a = CM.evaluate(H, idn, ide, labels={label})[label]
-    H2, inv_n, inv_e = build_variant(var)
+    H2, inv_n, inv_e = build_variant(var, case)
     b = CM.evaluate(H2, inv_n, inv_e, labels={label})[label]
     if CM.same(a, b, tol):
         return None
@@ -237,6 +286,8 @@ def model_values(resp):
         v = resp[key]
         out[lab] = ('x', _rat(v)) if isinstance(v, str) else (('set', 'e'), [dec_id(x) for x in v])
     out["duplicates"] = (('set', 'e'), [dec_id(x) for x in resp["duplicates"]])
+    if resp.get("duplicates_exact") != "unmodelled":     # the exact result of H.edges.duplicates() (model: `duplicates`)
+        out["duplicates_exact"] = (('set', 'e'), [dec_id(x) for x in resp["duplicates_exact"]])
     out["degree_pairs"] = ('x', sorted(tuple(p) for p in resp["degree_pairs"]))
     for i, (o, s, w) in enumerate(CM.MAT_GRID):
         out[f"incidence_matrix#{i}"] = (CM.NE, _mat_of(resp["incidence_matrix"][i], None))
@@ -284,6 +335,10 @@ def impl_for_model(H, base):
     d = base["edges.duplicates (classes)"]
     out["duplicates"] = d[2] if isinstance(d, tuple) and d and d[0] != "$err" else d
     idn, ide = {n: n for n in H.nodes}, {e: e for e in H.edges}
+    try:
+        out["duplicates_exact"] = CM.norm(('set', 'e'), set(H.edges.duplicates()), idn, ide)
+    except Exception as ex:  # noqa
+        out["duplicates_exact"] = ("$err", type(ex).__name__)
 
     def ev(shape, f):
         try:
@@ -300,7 +355,7 @@ def impl_for_model(H, base):
     return out
 
 
-MODEL_SITE = lambda key: key.split("#")[0].split(":")[0].replace("nodes.", "").replace("edges.", "").replace("(strict)", "")
+MODEL_SITE = lambda key: key.replace("duplicates_exact", "duplicates").split("#")[0].split(":")[0].replace("nodes.", "").replace("edges.", "").replace("(strict)", "")
 
 
 def compare_model(case, H, base, resp):
@@ -329,7 +384,7 @@ def load_corpus():
         try:
             j = json.load(open(f))
             if "nodes" in j and "edges" in j:
-                out.append({"nodes": j["nodes"], "edges": j["edges"]})
+                out.append({"nodes": j["nodes"], "edges": j["edges"], "nattr": j.get("nattr", []), "eattr": j.get("eattr", [])})
         except Exception:  # noqa
             pass
     return out
@@ -349,29 +404,36 @@ def classify(case):
     return "eids:mixed" if m else "eids:none"
 
 
+def base_skip_flags(case):
+    """flags of measures that cannot be evaluated on this case at all"""
+    nodes = [dec_id(n) for n in case["nodes"]]
+    eids = [dec_id(e) for e, _ in case["edges"]]
+    return ({"orderable"} if not CM.orderable(nodes) else set()) | ({"eids-orderable"} if not CM.orderable(eids) else set())
+
+
 def metamorphic(ctx, case, base, H, labels=None, first_seen=None):
     """the six relabel x order variants plus two pure re-insertions; records violations"""
     rng = ctx.rng
     nodes = [dec_id(n) for n in case["nodes"]]
     edges = [(dec_id(e), [dec_id(x) for x in ms]) for e, ms in case["edges"]]
-    unorderable = not CM.orderable(nodes)
-    if unorderable:
+    skip0 = base_skip_flags(case)
+    if "orderable" in skip0:
         ctx.stats["simpliciality-skipped:mixed-node-labels"] += 1
     failed_order = set()
     obs0 = CM.observe(H, {n: n for n in H.nodes}, {e: e for e in H.edges}) if labels is None else {}
     for relabel in ("id",) + RELABELS:
         for nodes_first in (True, False):
             var = make_variant(rng, nodes, edges, relabel, nodes_first)
-            H2, inv_n, inv_e = build_variant(var)
+            H2, inv_n, inv_e = build_variant(var, case)
             if relabel == "perm" and len(edges) >= 2 and list(H2.edges) != list(range(len(edges))):
                 ctx.stats["variant:edge-id-differs-from-position"] += 1
-            res = CM.evaluate(H2, inv_n, inv_e, labels=labels, skip_unorderable=unorderable)
+            res = CM.evaluate(H2, inv_n, inv_e, labels=labels, skip_flags=skip0 | (set() if relabel == "id" else {"order-only"}))
             if obs0:
                 for (site, label, shape, tol, _), (_, b) in zip(CM.OBS, CM.observe(H2, inv_n, inv_e).items()):
                     if not CM.same(obs0[label], b, tol):
                         ctx.stats["outside-statement-differs:" + label] += 1
                         ctx.extra.setdefault("outside_statement_examples", {}).setdefault(
-                            label, {"original": case, "relabelled": variant_net(var), "detail": CM.first_diff(obs0[label], b, tol)})
+                            label, {"original": case, "relabelled": variant_net(var, case), "detail": CM.first_diff(obs0[label], b, tol)})
             ctx.evaluations += len(res)
             ctx.stats["variant:" + relabel] += 1
             for label, b in res.items():
@@ -379,16 +441,18 @@ def metamorphic(ctx, case, base, H, labels=None, first_seen=None):
                 a = base[label]
                 if CM.same(a, b, tol):
                     continue
-                cls = "not-order-invariant" if (relabel == "id" or label in failed_order) else "not-relabel-invariant"
+                again = relabel != "id" and label in failed_order
+                cls = "not-order-invariant" if (relabel == "id" or again) else "not-relabel-invariant"
                 if relabel == "id":
                     failed_order.add(label)
-                detail = f"{label}: original vs {relabel}-relabelled/reordered (mapped back): " + CM.first_diff(a, b, tol)
+                detail = (f"{label}: original vs {relabel}-relabelled/reordered (mapped back)"
+                          + (" [already differs under re-insertion alone]" if again else "") + ": " + CM.first_diff(a, b, tol))
                 c, v = case, var
                 if first_seen is not None and (site, cls) not in first_seen:
                     first_seen.add((site, cls))
                     c, v = shrink(case, var, label)
                     detail = differs(c, v, label) or detail
-                ctx.violation(site, cls, {"measure": label, "original": c, "variant": v, "relabelled": variant_net(v)}, detail=detail)
+                ctx.violation(site, cls, {"measure": label, "original": c, "variant": v, "relabelled": variant_net(v, c)}, detail=detail)
                 ctx.stats["violation:" + site] += 1
 
 
@@ -398,8 +462,20 @@ def run_cases(ctx, cases, model=True, meta=True, labels=None, first_seen=None, d
         H = build_orig(case)
         idn, ide = {n: n for n in H.nodes}, {e: e for e in H.edges}
         nodes = [dec_id(n) for n in case["nodes"]]
-        base = CM.evaluate(H, idn, ide, labels=labels, skip_unorderable=not CM.orderable(nodes))
+        base = CM.evaluate(H, idn, ide, labels=labels, skip_flags=base_skip_flags(case))
         ctx.evaluations += len(base)
+        comp = ctx.extra.setdefault("_completion", {})
+        for lab, val in base.items():
+            rec = comp.setdefault(lab, [0, 0, Counter()])
+            rec[1] += 1
+            if isinstance(val, tuple) and val and val[0] == "$err":
+                rec[2][val[1]] += 1
+            else:
+                rec[0] += 1
+        if case.get("eattr"):
+            ctx.stats["cases-with-edge-weights"] += 1
+        if case.get("nattr"):
+            ctx.stats["cases-with-node-attributes"] += 1
         ctx.stats[classify(case)] += 1
         ctx.stats["node-labels:" + ("mixed" if not CM.orderable(nodes) else "str" if nodes and isinstance(nodes[0], str) else "int")] += 1
         if any(len(ms) >= 2 for _, ms in case["edges"]):
@@ -422,7 +498,7 @@ def run_cases(ctx, cases, model=True, meta=True, labels=None, first_seen=None, d
         return
     resps = run_driver("C09", reqs + xreqs)
     for rq, got, exp in zip(xreqs, resps[len(reqs):], xexp):
-        ctx.traces += 1
+        ctx.stats["model-selftest:" + rq["f"]] += 1      # the model's own rename / reverseAll vs the harness: not a trace against /repo
         if got != exp:
             dis_sites["model:" + rq["f"]] += 1
             ctx.extra.setdefault("disagreements", []).append({"case": rq, "measure": rq["f"], "impl": repr(exp)[:300], "model": repr(got)[:300]})
@@ -442,19 +518,41 @@ def run_cases(ctx, cases, model=True, meta=True, labels=None, first_seen=None, d
                 ctx.extra["disagreements"].append({"case": case, "measure": key, "impl": repr(i)[:400], "model": repr(m)[:400]})
 
 
+def completion_report(ctx):
+    """(iii) of the module docstring: a quantity that raised on every generated original was never exercised"""
+    comp = ctx.extra.pop("_completion", {})
+    always, table = [], {}
+    for lab, (done, total, errs) in sorted(comp.items()):
+        if total and done == 0:
+            always.append({"measure": lab, "site": CM.BY_LABEL[lab][0], "evaluations": total, "exceptions": dict(errs)})
+        if total and done * 4 < total:
+            table[lab] = {"completed": done, "of": total, "exceptions": dict(errs)}
+    ctx.extra["always_raises"] = always
+    ctx.extra["rarely_completes"] = table
+    ctx.stats["measures_evaluated"] = len(comp)
+    ctx.stats["measures_always_raising"] = len(always)
+    for a in always:
+        ctx.violation(a["site"], "raises-on-every-input", {"measure": a["measure"], "exceptions": a["exceptions"], "evaluations": a["evaluations"]},
+                      detail=f"{a['measure']} raised on all {a['evaluations']} generated hypergraphs ({a['exceptions']}): its invariance was "
+                             "not exercised at all, nothing is claimed for it", kind="unproven",
+                      broken=[f"C09 metamorphic run: {a['measure']} never returned a value"])
+
+
 def run(ctx):
     ok = build_and_audit(ctx, "XgiModel.Props.C09", ["XgiModel.C09.Drive"])
-    ctx.rule = ("small hypergraphs (<=7 nodes, <=7 edges, sizes 1-4, isolated nodes, multi-edges, uniform ones) from one PRNG; edge-ID "
+    ctx.rule = ("small hypergraphs (<=7 nodes, <=7 edges, sizes 1-4, isolated nodes, multi-edges, uniform ones) from one PRNG, 85 % of them with "
+                "an edge attribute 'weight' (on ~75 % of the edges, values 1/2/3/0.5/2.5) and a node attribute 'mass'; edge-ID "
                 "schemes cycled over identity / reversed and rotated permutations of 0..m-1 / gapped ints / strings / mixed, node labels over "
                 "ints / gapped / negative / strings / mixed; each case is re-inserted twice under the identity labelling and under three "
                 "relabellings (gapped ints, non-identity permutation of 0..k-1 and 0..m-1, strings) x two insertion orders (nodes, edges and "
-                "members shuffled; nodes before or after edges); ~100 structural quantities compared after mapping back; the modelled "
-                "measures are compared with the Lean model on the original; non-trivial = distinct case with an edge of >=2 members")
+                "members shuffled; nodes before edges with attributes given at insertion, or after edges with attributes attached by the "
+                f"setters); attributes travel with their node / edge; {len(CM.M)} structural quantities incl. the weighted variants compared "
+                "after mapping back; the modelled measures are compared with the Lean model on the original; non-trivial = distinct case with "
+                "an edge of >=2 members")
     first_seen, dis_sites = set(), Counter()
     corpus = load_corpus()
     ctx.stats["corpus_cases"] = len(corpus)
-    cases = corpus + [dict(zip(("nodes", "edges"), (lambda ne: ([enc_id(n) for n in ne[0]], [[enc_id(e), [enc_id(x) for x in ms]] for e, ms in ne[1]]))(gen_case(ctx.rng, i))))
-                      for i in range(ctx.n(70, 1500))]
+    cases = corpus + [mk_case(ctx.rng, i) for i in range(ctx.n(70, 1500))]
     run_cases(ctx, cases, first_seen=first_seen, dis_sites=dis_sites)
     if not ctx.quick:
         small = [{"nodes": list(ns), "edges": [[e, list(ms)] for e, ms in es]} for ns, es in all_small_hypergraphs(4, 3)]
@@ -468,23 +566,30 @@ def run(ctx):
     if (not ok and not unlisted_violations(ctx)) or unexplained:
         # search harder on the implementation, biased to the functions involved
         labels = None if not ok and not unexplained else {m[1] for m in CM.M if m[0] in unexplained} or None
-        more = [dict(zip(("nodes", "edges"), (lambda ne: ([enc_id(n) for n in ne[0]], [[enc_id(e), [enc_id(x) for x in ms]] for e, ms in ne[1]]))(gen_case(ctx.rng, i))))
-                for i in range(ctx.n(150, 1500))]
+        more = [mk_case(ctx.rng, i) for i in range(ctx.n(150, 1500))]
         run_cases(ctx, more, model=False, labels=labels, first_seen=first_seen, dis_sites=dis_sites)
         ctx.stats["targeted_search_cases"] = len(more)
         unexplained = [s for s in dis_sites if not any(v["site"] == s for v in ctx.violations)]
         if unexplained or (not ok and not unlisted_violations(ctx)):
             ctx.violation("model-tie", "unproven", {"broken": ctx.broken, "example": ctx.extra.get("disagreements", [])[:1]},
                           detail="; ".join(ctx.broken)[:500], kind="unproven", broken=ctx.broken)
+    completion_report(ctx)
     ctx.assumptions = [
         "IDs are int or str (mixed allowed); bool/float/tuple IDs and empty edges are outside the generated domain",
+        "attributes: one numeric edge attribute ('weight', missing on some edges) and one numeric node attribute ('mass'); they are data of the "
+        "node / edge and travel with it under the relabelling",
         "simpliciality measures are compared only when node labels are mutually orderable (Trie sorts members; mixed int/str labels raise TypeError there)",
-        "edges.duplicates() / nodes.duplicates(): the classes of equal IDs are compared, not the representative that is left out (chosen by ID order, "
-        "falling back to insertion order — cannot be equivariant under both transformations)",
+        "edges.duplicates() / nodes.duplicates() leave out the smallest ID of every class of equal IDs (sorted(); insertion order when the IDs are not "
+        "mutually orderable): under RELABELLING only the classes are compared (which ID is smallest is not preserved by an arbitrary bijection; "
+        "Lean: C09_duplicates_rename needs an order-preserving sigma, counter-example in Props/C09.lean), under RE-INSERTION ALONE the exact result "
+        "is compared whenever the IDs are mutually orderable",
         "largest_connected_component / largest_connected_hypergraph: with several largest components only the size is compared (first one in node order is returned)",
         "floats compared with relative/absolute tolerance 1e-9 (Katz centrality 1e-8); NaN equals NaN",
+        "a quantity raising the same exception type on original and variant counts as equal for that case; a quantity raising on EVERY generated "
+        "original is reported (always_raises, exit 1 unproven), not counted as invariant",
         "Katz centrality, degree/dynamical assortativity coefficients, simpliciality, multiorder and normalized Laplacians, intersection profile, "
-        "clique motif and degree matrices are checked metamorphically on the implementation only (no Lean model)",
+        "clique motif and degree matrices, every weighted / attribute-reading variant and the line graph are checked metamorphically on the "
+        "implementation only (no Lean model)",
     ]
     return finish(ctx, trusted_base=TRUSTED_COMMON + [
         "the relabel/reinsert builder and the map-back canonicaliser of harness/c09_measures.py",
@@ -497,7 +602,7 @@ def replay(ctx, path):
     case, var, label = c["original"], c["variant"], c["measure"]
     d = differs(case, var, label)
     print(f"original: nodes={case['nodes']} edges={case['edges']}")
-    print(f"relabelled/reordered: {variant_net(var)}")
+    print(f"relabelled/reordered: {variant_net(var, case)}")
     if d:
         print("STILL DIFFERS:", d)
         return 1
